@@ -20,14 +20,17 @@ Inductive atom :=
 | ALit (l : literal)
 | AParam (s : str)
 | AInterp (sql : bool) (parts : list ipart)     (* s"..." (true) / f"..." (false) *)
-| AInternal (s : str).
+| AInternal (s : str)
+| APar (s : str).                                (* the name of a lambda parameter (a token, never an expression) *)
 
 (* ------------------------------------------------------------------ expressions *)
 Inductive gkind := GPipe | GTup | GArr | GCase.
 
 (* Binary / unary operators are indices into the tables (declaration order of pr::BinOp / pr::UnOp).
    EGroup GCase holds the branches flattened: [c1; v1; c2; v2; ...].
-   EAlias / ENamed model `alias = e` (an Expr with its alias field set) and a named argument `n:e`. *)
+   EAlias / ENamed model `alias = e` (an Expr with its alias field set) and a named argument `n:e`.
+   EFunc ps ds b is the lambda `func p1 p2 k1:d1 k2:d2 -> b`: positional parameter names, then the parameters with a
+   default value as `ENamed k d` (pr::Func keeps the two groups apart); types are outside the model. *)
 Inductive expr :=
 | EAtom (a : atom)
 | EBin (o : nat) (l r : expr)
@@ -36,20 +39,22 @@ Inductive expr :=
 | ECall (f : expr) (args : list expr)
 | EGroup (k : gkind) (es : list expr)
 | EAlias (n : str) (e : expr)
-| ENamed (n : str) (e : expr).
+| ENamed (n : str) (e : expr)
+| EFunc (ps : list str) (ds : list expr) (b : expr).
 
 (* ------------------------------------------------------------------ tokens *)
 (* TS s un : operator symbol s (an index into the symbol table); `un` records that the printer emitted it in
    prefix position (only used for spacing when rendering; the parser ignores it -- `-` is one token).
    TRg bl br : `..` with an operand glued on the left / right.
-   TOpen GCase stands for `case [`.  TAlias n = `n =`, TNamed n = `n:`. *)
+   TOpen GCase stands for `case [`.  TAlias n = `n =`, TNamed n = `n:`.  TFunc = `func`, TThin = `->`. *)
 Inductive tok :=
 | TA (a : atom)
 | TS (s : nat) (un : bool)
 | TRg (bl br : bool)
 | TOpen (k : gkind) | TClose (k : gkind)
 | TComma | TPipe | TArrow
-| TAlias (n : str) | TNamed (n : str).
+| TAlias (n : str) | TNamed (n : str)
+| TFunc | TThin.
 
 Definition gkind_eqb (a b : gkind) : bool :=
   match a, b with GPipe, GPipe | GTup, GTup | GArr, GArr | GCase, GCase => true | _, _ => false end.
@@ -71,11 +76,14 @@ Record parsers := {
   q_call : list tok -> res expr;
   q_args : list tok -> res (list expr);
   q_items : gkind -> list tok -> res (list expr);
+  q_params : list tok -> res (list str * list expr);
+  q_lam : list tok -> res expr;
 }.
 
 Definition fail_all : parsers := {|
   q_term := fun _ => None; q_bin := fun _ _ => None; q_loop := fun _ _ _ => None;
-  q_call := fun _ => None; q_args := fun _ => None; q_items := fun _ _ => None |}.
+  q_call := fun _ => None; q_args := fun _ => None; q_items := fun _ _ => None;
+  q_params := fun _ => None; q_lam := fun _ => None |}.
 
 Definition is_named (e : expr) : bool := match e with ENamed _ _ => true | _ => false end.
 (* `expr.kind`: the node without its alias.  func_call with no arguments returns `name.kind` re-wrapped, so the alias
@@ -124,12 +132,19 @@ Section Parser.
     | _ => false
     end.
 
+  (* nested_expr = lambda_func | func_call   (the formatter always writes the keyword `func`) *)
+  Definition p_lc (P : parsers) (ts : list tok) : res expr :=
+    match ts with
+    | TFunc :: r => q_lam P r
+    | _ => q_call P ts
+    end.
+
   Definition p_nested (P : parsers) (alias_ok : bool) (ts : list tok) : res expr :=
     match ts with
     | TAlias n :: r =>
-        if alias_ok then match q_call P r with Some (e, r') => Some (EAlias n e, r') | None => None end
+        if alias_ok then match p_lc P r with Some (e, r') => Some (EAlias n e, r') | None => None end
         else None
-    | _ => q_call P ts
+    | _ => p_lc P ts
     end.
 
   (* one element of a pipeline / tuple / array / case list *)
@@ -217,6 +232,25 @@ Section Parser.
           else Some ([], ts)
       | [] => Some ([], [])
       end;
+    (* lambda_func: param = ident_part (`:` expr)?, repeated; then `->` and func_call as the body.  A parameter name
+       is the token of a one-part identifier (APar when it comes from the formatter model). *)
+    q_params := fun ts =>
+      match ts with
+      | TA (APar p) :: r | TA (AIdent [p]) :: r =>
+          match q_params P r with Some ((ps, ds), r') => Some ((p :: ps, ds), r') | None => None end
+      | TNamed k :: r =>
+          match q_bin P 0 r with
+          | Some (d, r1) => match q_params P r1 with Some ((ps, ds), r2) => Some ((ps, ENamed k d :: ds), r2) | None => None end
+          | None => None
+          end
+      | _ => Some (([], []), ts)
+      end;
+    q_lam := fun ts =>
+      match q_params P ts with
+      | Some ((ps, ds), TThin :: r) =>
+          match q_call P r with Some (b, r') => Some (EFunc ps ds b, r') | None => None end
+      | _ => None
+      end;
     q_items := fun k ts =>
       match ts with
       | TClose k' :: r =>
@@ -250,6 +284,13 @@ Section Parser.
     | Some (e, []) => Some e
     | _ => None
     end.
+
+  (* the parser `expr()` on its own: an annotation expression (`@expr`, parser/stmt.rs), consuming the whole input *)
+  Definition parse_expr (fuel : nat) (ts : list tok) : option expr :=
+    match q_bin (par fuel) 0 ts with
+    | Some (e, []) => Some e
+    | _ => None
+    end.
 End Parser.
 
 (* ------------------------------------------------------------------ well-formed trees *)
@@ -259,7 +300,8 @@ End Parser.
    `f n:(x = a) b`: positions repaired by commits 95d15ad and 2a611aa).  func_call drops the alias of an expression
    that is not a call, so array items and case branches never carry one.  Named arguments only in argument lists and
    before the positional ones; calls have an argument; parenthesised pipelines have two or more elements; case lists
-   are pairs. *)
+   are pairs.  A lambda may stand anywhere an expression may (the formatter parenthesises it everywhere but at the head
+   of a list element); its default values are operands, its body is a call or any other plain expression. *)
 Definition is_alias (e : expr) : bool := match e with EAlias _ _ => true | _ => false end.
 Definition plain (e : expr) : bool := negb (is_alias e) && negb (is_named e).
 Definition operand (e : expr) : bool := negb (is_named e).
@@ -291,6 +333,10 @@ Fixpoint wf (e : expr) : bool :=
       (fix go (l : list expr) : bool := match l with [] => true | a :: t => wf a && go t end) es
   | EAlias _ x => plain x && wf x
   | ENamed _ x => operand x && wf x
+  | EFunc _ ds b =>
+      (* parameters with a default are `k:d`; the body is a func_call: no alias of its own *)
+      forallb is_named ds && plain b && wf b &&
+      (fix go (l : list expr) : bool := match l with [] => true | a :: t => wf a && go t end) ds
   end.
 
 (* every operator index of the tree is one of the nb binary / nu unary operators of the tables *)
@@ -305,4 +351,5 @@ Fixpoint ops_ok (nb nu : nat) (e : expr) : bool :=
   | ECall f args => ops_ok nb nu f && (fix go (l : list expr) : bool := match l with [] => true | a :: t => ops_ok nb nu a && go t end) args
   | EGroup _ es => (fix go (l : list expr) : bool := match l with [] => true | a :: t => ops_ok nb nu a && go t end) es
   | EAlias _ x | ENamed _ x => ops_ok nb nu x
+  | EFunc _ ds b => ops_ok nb nu b && (fix go (l : list expr) : bool := match l with [] => true | a :: t => ops_ok nb nu a && go t end) ds
   end.
